@@ -192,19 +192,23 @@ fn concretise(class: &Value, rng: &mut StdRng) -> Instance {
             e[k] = uvarint_padded(fields[k], rng.gen_range(1..4));
             e.concat()
         }
-        "overlong" => {
-            // a varint that does not fit u64: ten continuation groups or a tenth byte > 1
+        "toolong" => {
+            // more than ten bytes: no u64 reader accepts it
             let k = rng.gen_range(0..4);
             let mut e = enc.clone();
-            e[k] = if rng.gen() {
-                let mut v = vec![0xffu8; 9];
-                v.push(*[0x02u8, 0x7f, 0x03].choose(rng).unwrap());
-                v
-            } else {
-                let mut v = vec![0x80u8 | (fields[k] as u8 & 0x7f); 10];
-                v.push(0x01);
-                v
-            };
+            let mut v = vec![0x80u8 | (fields[k] as u8 & 0x7f); 10 + rng.gen_range(0..3)];
+            v.push(0x01);
+            e[k] = v;
+            e.concat()
+        }
+        "overflow" => {
+            // ten bytes whose low 64 bits spell the intended value, with bits beyond 2^64 set
+            // in the tenth byte
+            let k = rng.gen_range(0..4);
+            let mut e = enc.clone();
+            let mut v: Vec<u8> = (0..9).map(|i| 0x80 | ((fields[k] >> (7 * i)) & 0x7f) as u8).collect();
+            v.push(((fields[k] >> 63) as u8 & 1) | *[0x02u8, 0x04, 0x7e, 0x40].choose(rng).unwrap());
+            e[k] = v;
             e.concat()
         }
         other => panic!("pfx {other}"),
@@ -232,7 +236,7 @@ fn concretise(class: &Value, rng: &mut StdRng) -> Instance {
 fn cert_event(inst: &Instance, via: &str, result: Result<Option<(Vec<u8>, Vec<u8>)>, String>) -> Value {
     let (verdict, cid_ok, data_ok, detail) = match result {
         Err(p) => ("panic", false, false, json!(p)),
-        Ok(None) => ("drop", false, false, Value::Null),
+        Ok(None) => ("drop", false, false, json!("")),
         Ok(Some((mut cid, data))) => {
             if fault("cert-claimed-cid") && inst.class["payload"] == "tampered" {
                 if let Some(w) = &inst.wanted_cid {
@@ -259,10 +263,13 @@ fn response_parts(r: bs::ResponseType) -> Option<(Vec<u8>, Vec<u8>)> {
 fn run_cert(classes: &[Value], per_class: usize, seed: u64, lines: &mut Vec<String>, stats: &mut HashMap<String, u64>) {
     let peer = PeerId::random();
     let (mut proto, mut handle) = bs::BitswapHarness::new();
-    lines.push(jline(json!({"e": "reset", "kind": "cert", "B": 0, "M": 0, "sizes": []})));
     let mut pending: Vec<Instance> = vec![];
     for (ci, class) in classes.iter().enumerate() {
+        // the rng stream is the class index of the full enumeration (kept in replay files)
+        let ci = class["ci"].as_u64().map(|x| x as usize).unwrap_or(ci);
         let mut rng = rng_for(seed, ci as u64);
+        // one segment per class: a rejected class does not hide the others
+        lines.push(jline(json!({"e": "reset", "kind": "cert", "B": 0, "M": 0, "sizes": [], "pfx": class["c"]["pfx"], "ci": ci})));
         for k in 0..per_class {
             let inst = concretise(&class["c"], &mut rng);
             let (p, d) = (inst.prefix.clone(), inst.received.clone());
@@ -273,7 +280,7 @@ fn run_cert(classes: &[Value], per_class: usize, seed: u64, lines: &mut Vec<Stri
             if k % 3 == 0 && !pending.iter().any(|o| o.received == inst.received) {
                 pending.push(inst);
             }
-            if pending.len() >= 7 || (ci + 1 == classes.len() && k + 1 == per_class) {
+            if pending.len() >= 7 || k + 1 == per_class {
                 flush_message(&mut proto, &mut handle, peer, std::mem::take(&mut pending), &mut rng, lines, stats);
             }
         }
@@ -602,6 +609,10 @@ fn main() {
             .collect();
         let p = rng.gen_range(0..3);
         e2e.push((sizes, p.min(n)));
+    }
+    for e in args.get("e2e-file").map(read_jsonl).unwrap_or_default() {
+        let sizes: Vec<usize> = e["sizes"].as_array().unwrap().iter().map(|x| x.as_u64().unwrap() as usize).collect();
+        e2e.push((sizes, e["presences"].as_u64().unwrap_or(0) as usize));
     }
     // many small blocks: payload well inside one batch, encoding overhead dominates
     for t in 0..args.u64("e2e-tiny", 0) {
